@@ -22,6 +22,8 @@ PackAtTid(T) == T \in TidsOf(hist) /\ Pack(T)
 NextTxn == EditQ \/ Sp \/ AbortTxn \/ Tpc \/ AbortPath \/ OtherQ \/ WrongSome \/ Handles \/ Other
 NextHist == EditMin \/ Links \/ Tpc \/ AbortPath \/ Other \/ UndoAll \/ (\E T \in 1..MaxTid : PackAtTid(T))
 NextHistNoPack == EditMin \/ Tpc \/ AbortPath \/ Other \/ UndoAll
+\* unlinking / relinking blobs, commits, packs at every committed tid
+NextLink == EditMin \/ Links \/ TpcBegin \/ StoreOK \/ Vote \/ Finish \/ (\E T \in 1..MaxTid : PackAtTid(T))
 \* foreign calls at every phase, the second writer's late bookkeeping at every point of a commit of c1, a failing
 \* blob copy in undo - with the smallest edits
 NextRace == EditMin \/ Tpc \/ AbortPath \/ UndoAll \/ WrongSome \/ Race \/ StoreFault \/ PackDuringSome \/ Other
